@@ -118,14 +118,25 @@ func (v *c15) OnState(x *Ctx, s *St) {
 	closed := gs.Status.CurrentEvent == "GameClosed"
 	full := toDoc(gs)
 	n := len(gs.Players)
-	for viewer := -1; viewer < n; viewer++ {
+	// viewers: the observer, every seat, and player views asked for somebody who has no seat in this
+	// hand (index -1 is what the table layer gets for a table player who is not dealt in; n and n+7 are
+	// beyond the last seat) - such a viewer owns no cards, so everything hidden stays hidden
+	type viewerT struct {
+		who string
+		idx int
+	}
+	viewers := []viewerT{{"observer", -1}}
+	for i := 0; i < n; i++ {
+		viewers = append(viewers, viewerT{"player", i})
+	}
+	viewers = append(viewers, viewerT{"stranger", -1}, viewerT{"stranger", n}, viewerT{"stranger", n + 7})
+	for _, vw := range viewers {
+		viewer, who := vw.idx, vw.who
 		view := jsonClone(gs)
-		who := "observer"
-		if viewer >= 0 {
-			view.AsPlayer(viewer)
-			who = "player"
-		} else {
+		if who == "observer" {
 			view.AsObserver()
+		} else {
+			view.AsPlayer(viewer)
 		}
 		x.Run.Count("views_checked", 1)
 		doc := toDoc(view)
@@ -236,7 +247,7 @@ func leakKind(what string) string {
 
 // RunC15 explores the play grid; every state is rendered for every viewer.
 func RunC15(rep *explore.Report, tier string) {
-	rep.Set("rule", "every reachable state of the play grid x every viewer (each seat, the observer): JSON clone, AsPlayer/AsObserver, field-agnostic scan of every string value for hidden card tokens, other seats' evaluation absent, everything else equal to the unredacted state; distinct_nontrivial = views rendered")
+	rep.Set("rule", "every reachable state of the play grid x every viewer (each seat, the observer, and AsPlayer for the non-seat indexes -1, n, n+7): JSON clone, AsPlayer/AsObserver, field-agnostic scan of every string value for hidden card tokens, other seats' evaluation absent, everything else equal to the unredacted state; distinct_nontrivial = views rendered")
 	if RunScenes(rep, tier, Visitors["C15"], GridOpts{Property: "C15"}) {
 		return
 	}
